@@ -399,7 +399,7 @@ def run(ctx):
                 '(negative included)/time=t (exact, between, before first, after last, 1e-9 off)/step=s/history(selection); after every action the '
                 'view is compared with a fresh reader at that index; distinct non-trivial = distinct (file, variant, action sequence)')
     rng = ctx.rng('c07')
-    jobs = build_jobs(ctx, rng, ctx.n(12, 150), ctx.n(2, 12), 40, ctx.n(2, 99), 1.0)
+    jobs = build_jobs(ctx, rng, ctx.n(12, 300), ctx.n(2, 20), 40, ctx.n(2, 99), 1.0, ops_budget=ctx.n(120, 900))
     results = L.run_jobs('job_c07', jobs, timeout=NAV_TIMEOUT, module='props.c07')
     collect(res, results, jobs)
     res.facet('oracle_navigation')['cases'] = res.stats.get('actions', 0)
